@@ -1,0 +1,30 @@
+//go:build verif
+
+package config
+
+// VerifSnapshot reports the state of the accessor to the verification
+// harness (build tag verif only): the current version number, every retained
+// version with its policies and the version each transaction is pinned to.
+func (txnPoliciesAccessor *TxnPoliciesAccessor) VerifSnapshot() (
+	PoliciesVersion,
+	map[PoliciesVersion]*PoliciesData,
+	map[TxnID]PoliciesVersion,
+) {
+	txnPoliciesAccessor.mutex.RLock()
+	defer txnPoliciesAccessor.mutex.RUnlock()
+	versions := make(map[PoliciesVersion]*PoliciesData, len(txnPoliciesAccessor.policiesVersions))
+	for version, data := range txnPoliciesAccessor.policiesVersions {
+		versions[version] = data
+	}
+	pins := make(map[TxnID]PoliciesVersion, len(txnPoliciesAccessor.txnVersions))
+	for txnID, version := range txnPoliciesAccessor.txnVersions {
+		pins[txnID] = version
+	}
+	return txnPoliciesAccessor.currentVersion, versions, pins
+}
+
+// VerifDiagnosisFree tells whether the policies were built by a revert to the
+// diagnosis-free configuration.
+func (policiesData *PoliciesData) VerifDiagnosisFree() bool {
+	return policiesData.diagnosisFreeReverted
+}
